@@ -113,7 +113,7 @@ def annotate(t, annot, path=(), parent=None):
     if path and parent in ('pair', 'or') and annot.rng.random() < 0.5:
         # some names spell what the Python-object layer generates for unnamed siblings (<prim>_<position>)
         annot.marks[path] = [annot.rng.choice(['%a', '%b', '%fld', '%x1', '%a', '%b', '%nat_0', '%nat_1', '%nat_2', '%string_1', '%int_1', '%bytes_2',
-                                               '%' + t[0] + '_' + str(annot.rng.randrange(4))])]
+                                               '%' + t[0] + '_' + str(annot.rng.randrange(4)), '%' + 'n' * 32, '%' + 'm' * 31])]
     elif path and annot.rng.random() < 0.2:
         annot.marks[path] = [annot.rng.choice([':ty', ':t2'])]
     for i, a in enumerate(t[1:]):
